@@ -813,6 +813,9 @@ func runConcRace(r *Run) {
 		// final phase: every worker reads its own object back many times over, all at once - sustained parallel
 		// traffic through whatever the traversal code shares behind the API (caches, pools)
 		n := 100 + c.Intn("stormn", 900)
+		if len(ws) > 16 {
+			n = 50 + n/4
+		}
 		start := make(chan struct{})
 		var wg sync.WaitGroup
 		k := 0
@@ -845,6 +848,9 @@ func runConcRace(r *Run) {
 		// Serializer in a compressing mode, over and over, all at once; every round must expose the worker's own document.
 		// Anything the codecs share behind the API (pools, limiters, decoders) sees more simultaneous tenants than CPUs.
 		n := 20 + c.Intn("codecstormn", 180)
+		if len(ws) > 4 {
+			n = 10 + n*4/len(ws) // the same total traffic whatever the number of workers: no single run takes tens of seconds
+		}
 		start := make(chan struct{})
 		var wg sync.WaitGroup
 		k := 0
